@@ -1093,6 +1093,7 @@ func runC09(c *Ctx) {
 	c09Calls(c)     // ---- 2c. call statements: CallStm.format / call_stm (c09call.go)
 	c09AuditDump(c) // ---- 2d. the AST dump below covers every field of the Go AST (c09audit.go)
 	c09Decl(c)      // ---- 2e. type names, parameter lists, struct and filetype declarations (c09decl.go)
+	c09Res(c)       // ---- 2f. stage clauses: src line, using (formatGB), retain (c09res.go)
 
 	// ---- 3. formatter monitors ----
 	progSeeds, _ := c08LoadSeeds(c)
